@@ -262,6 +262,8 @@ class Exec:
         return None
     def operand(s, frame, txt):
         txt = txt.strip()
+        mc = re.fullmatch(r'(const .+?) as \w+ \(IntToInt\)', txt)
+        if mc: return int(s.operand(frame, mc.group(1)))
         if txt.startswith('const '): return s.const(txt[6:])
         if txt.startswith('copy '): return copyval(s.read(frame, s.parse_place(txt[5:])))
         if txt.startswith('no_retag copy '): return copyval(s.read(frame, s.parse_place(txt[14:])))
